@@ -586,7 +586,10 @@ class ReleaseJobs:
         return {"pattern": rng.choice(["vYYYY.BUILD[-TAG]", "YYYY.BUILD", "MAJOR.MINOR.BUILD", "YYYY0M.BUILD[-TAG]"]),
                 "start": rng.choice(["1001", "1008", "1998", "0999", "22998", "0007"]), "jobs": rng.randint(3, 7),
                 "commit_cfg": rng.random() < 0.5, "flag": rng.choice(["--no-commit", "--no-commit", None]),
-                "scope": rng.choice([None, "global", "default"]), "ops": [{"op": "jobs"}]}
+                "scope": rng.choice([None, "global", "default"]), "ops": [{"op": "jobs"}],
+                # days between jobs; a job may run with an earlier date than the release before it (a release made with
+                # `--date <future>`, a build machine whose clock is behind): the newest tag is then "from the future"
+                "deltas": [rng.choice([3, 3, 3, 40, 400, -20, -45, -400]) for _ in range(7)]}
 
     def run(self, case, ctx):
         import os
@@ -639,5 +642,8 @@ class ReleaseJobs:
                 repo.tags[new] = repo.head_commit()
             if not committing:
                 invoker.write_tree(d, pristine)
-            clock += dt.timedelta(days=3)
+            delta = case.get("deltas", [3] * 7)[job % 7]
+            clock += dt.timedelta(days=delta)
+            if delta < 0:
+                ctx.probe("release_job_after_clock_went_back")
             ctx.probe("release_job_done")
